@@ -1,6 +1,7 @@
 From WC Require Import Str WcParse WcSplit Expand.
 From WC.Gen Require Import Consts FlagFuns.
-From Coq Require Import Lia.
+From Coq Require Import Lia ZifyBool.
+From WC.Proofs Require Import ExpandLemmas.
 Import Mwcparse.
 Open Scope Z_scope.
 
@@ -24,3 +25,22 @@ Lemma exclude_budget_fixed :
   pattern_lists linux w_brace (fun _ p => p) (fun _ _ p => Some p) (fun _ p => inl p) true false BRACE 3
                 [S_ "{1..10}"] (Some [S_ "x"; S_ "y"; S_ "z"]) = inr LLimit.
 Proof. vm_compute. reflexivity. Qed.
+
+(* the unbounded expansion behind [w_brace], and the contract the pass-direction theorem asks of a brace oracle *)
+Definition w_full (p : str) : list str :=
+  if str_eqb p (S_ "{1..10}") then map S_ ["1";"2";"3";"4";"5";"6";"7";"8";"9";"10"]%string else [p].
+
+Lemma w_brace_contract : forall p lim, 0 < lim -> Z.of_nat (length (w_full p)) <= lim -> w_brace p lim = Some (w_full p).
+Proof.
+  intros p lim Hl Hn. unfold w_brace, w_full in *. destruct (str_eqb p (S_ "{1..10}")); [|reflexivity].
+  cbn [length map] in Hn. replace (lim <? 10) with false by lia. rewrite Bool.andb_false_r. reflexivity.
+Qed.
+
+(* premises of the pass direction are satisfiable: ten expansions, two compiled exclusions, limit 12 *)
+Lemma pass_premise_example :
+  Z.of_nat (length [S_ "x"; S_ "y"]) +
+  total_items linux (fun _ p => p) (fun _ _ p => Some p) w_full (core_flags true BRACE)
+              (is_unix_style linux (core_flags true BRACE)) [S_ "{1..10}"] <= 12
+  /\ list_core linux w_brace (fun _ p => p) (fun _ _ p => Some p) (fun _ p => inl p) true false BRACE 12
+               [S_ "{1..10}"] [S_ "x"; S_ "y"] <> inr LLimit.
+Proof. split; [vm_compute; discriminate|vm_compute; discriminate]. Qed.
